@@ -71,6 +71,27 @@ def truncation(repo, run, rule_id="C09.1"):
             term_if = st
     if term_if is None:
         raise AnalysisError("anchor missing: terminal-event test in handle_events")
+    # a local read by the truncation must not be a SNAPSHOT taken before the arrays were permuted: `mask = is_terminal[active_events]` computed before
+    # `active_events = active_events[order]` is in list order, while the arrays it cuts are in time order
+    defs = {}
+    for st in walk_no_nested(fn):
+        if isinstance(st, ast.Assign) and len(st.targets) == 1 and isinstance(st.targets[0], ast.Name):
+            defs.setdefault(st.targets[0].id, []).append(st)
+    for nm in sorted({x.id for x in ast.walk(term_if) if isinstance(x, ast.Name) and isinstance(x.ctx, ast.Load)}):
+        if len(defs.get(nm, [])) != 1:
+            continue
+        d = defs[nm][0]
+        kd = path_key(d, fn)
+        if not kd < path_key(term_if, fn):
+            continue
+        reads = {x.id for x in ast.walk(d.value) if isinstance(x, ast.Name)}
+        rebound = [st for r_ in reads for st in defs.get(r_, []) if kd < path_key(st, fn) < path_key(term_if, fn)]
+        run.judged(rid, "local `%s` read by the truncation is current (its operands are not rebound after it is computed)" % nm, ok=not rebound, nontrivial=bool(reads & {act, roots, evs}))
+        if rebound:
+            run.report(rule_id, DS, d, "`%s` is computed before `%s` and read by the terminal truncation after it: it describes the events in LIST order while the arrays that are cut "
+                                       "are in TIME order, so with a terminal event listed before a non-terminal one that fires earlier in the same step the run is cut at the wrong "
+                                       "root (it stops at the non-terminal crossing and the terminal event is never reported)" % (src(d)[:70], src(rebound[0])[:60]),
+                       text="stale snapshot `%s` read by the truncation" % nm)
     ok = path_key(order_st, fn) < path_key(term_if, fn)
     # the three arrays are permuted by the order
     perm = {}
